@@ -318,6 +318,7 @@ func execRoundTrip(n *Node, sc *Scenario) *Violation {
 				if val.HasSkew(sb.Schema, rb.Schema, t, want) {
 					v.Facts["skew"] = "true"
 				}
+				v.Facts["skew_under_nested_struct"] = fmt.Sprint(val.SkewUnderNestedStruct(sb.Schema, rb.Schema, t, want))
 			}
 		}
 	}
